@@ -10,6 +10,7 @@ RULE = ("6 LeaseSet2 shapes (Ed25519/RedDSA/DSA/P-256/P-384 destinations, option
         "(incl. leap day, year boundary, 1970, 2038) x instants {-1 s, 0, +1 s, noon, 23:59:59} x 3 (6) time zones: equal blinded bytes "
         "iff equal UTC day as computed in TLA+; encryption key, padding and certificate preserved, signing key changed; the library's own "
         "check true with the factor derived for the TLA+-computed day, false with the next day's and with a random factor.")
+RULE += (" Blind ops are repeated with the PROCESS's local time zone set to -8 h, +5:30 and +14 h.")
 ASSUME = [common.TRUSTED, "go.step.sm/crypto/x25519, go-i2p/crypto kdf/chacha20poly1305/ed25519 blinding are trusted dependencies",
           "byte modifications are xor 0x01 and 0x55: X25519 ignores the top bit of the ephemeral public key, so xor 0x80 on its last byte is deliberately not used",
           "instants are below 2^31 s because TLC integers are 32-bit"]
